@@ -324,7 +324,8 @@ def evaluate(ctx, env, case, corrupt=None):
 def _gen_case(args):
     seed, want, max_states = args
     import random
-    got = mcprog_cex.sized_failing(random.Random(seed), want=want, max_states=max_states)
+    got = mcprog_cex.sized_failing(random.Random(seed), want=want, max_states=max_states,
+                                   max_paths=30000 if max_states <= 2500 else 300000)
     if got is None:
         return None
     p, fam, r = got
